@@ -426,10 +426,11 @@ func addRecorders(root *model.Node) {
 
 func TestC12(t *testing.T) {
 	h := hh.Start(t, "C12",
-		"cases = schemas with recorder callbacks (TestFunc on every node kind, custom schema functions, PostTransforms that record / mutate their destination / return an error / return an error wrapping or joining a ZogIssue / return a ZogIssue, tests with IssueCode / IssuePath / Params options, Preprocess functions that succeed, fail or meet the wrong input type) at every placement, both modes, random WithCtxValue sets; one totally ordered event log per execution (callbacks and issue creations); non-trivial = a pointer-receiving callback ran below a slice or pointer, or a PostTransform returned an error, or a Preprocess failed; distinct = FNV-1a of the case JSON",
+		"cases = schemas with recorder callbacks (TestFunc on every node kind, custom schema functions, PostTransforms that record / mutate their destination / return an error / return an error wrapping or joining a ZogIssue / return a ZogIssue, tests with IssueCode / IssuePath / Params options, Preprocess functions that succeed, fail or meet the wrong input type) at every placement; plus an enumerated sub-check over schemas of user-defined primitive types (StringSchema[T], NumberSchema[T], BoolSchema[T]) at the root, as a struct field and as a slice element, both modes, random WithCtxValue sets; one totally ordered event log per execution (callbacks and issue creations); non-trivial = a pointer-receiving callback ran below a slice or pointer, or a PostTransform returned an error, or a Preprocess failed; distinct = FNV-1a of the case JSON",
 		"invariants over the log: primitive TestFuncs get the value itself, every other callback a non-nil pointer equal to the address of a destination its node governs (computed by reflection after the call); ctx.Get returns exactly this call's WithCtxValue values and nil for other keys; per visit PostTransforms run in declaration order, at most once, stop at the first error, never after an issue was recorded, all of them when the execution succeeds (also at a node that used its Catch value: the specification names those occurrences); a returned error is wrapped by an issue at the node's path (a returned ZogIssue is reported); a failing Preprocess yields an issue and silences the wrapped schema",
 		"tests in these cases carry no Message option, so that every recorded issue passes through the execution formatter that logs it")
 	defer h.Finish()
+	hh.Enumerate(h, "named-type-callbacks", c12NamedCells, propC12Named)
 	for _, mode := range []string{"parse", "validate"} {
 		cfg := model.DefaultCfg(mode)
 		cfg.PostBehaviours = []string{"record", "mutate", "record", "error", "issue", "mutate", "wrapped"}
